@@ -180,7 +180,7 @@ PLAN["C15"] = {"quick": [job("native", "cell", 16, 600), job("native", "public",
                "min_evaluations": {"quick": 20, "thorough": 20}, "assumptions": PRIMITIVE_ASSUMPTIONS + ["Miri's weak-memory emulation covers a subset of C11 behaviours (no load buffering)"]}
 LEVEL["C17"] = "exploration"
 RULES["C17"] = ("model: every sequence over {write, read, open, close} up to the stated length on EventBuffer (capacities 1-4, initially open/closed) and EventSlot vs a VecDeque/Option model, plus long random "
-                "sequences with drains on capacities up to 64; order: generated DAG benches with sinks on ST / controlled ST / MT, the sub-sequence of events of one (model, output, connection) read from a "
+                "sequences with drains on capacities up to 64, each sequence run with three event types (u64, the zero-sized (), String); order: generated DAG benches with sinks on ST / controlled ST / MT, the sub-sequence of events of one (model, output, connection) read from a "
                 "buffer must equal the sending order; flood: 2-8 emitter models on 2-16 worker threads write bursts of (writer, seq) events into one buffer in the same step (storage growing by reallocation), "
                 "in half of the unbounded cases a helper thread steps while the harness drains concurrently; per writer the events read must be 0,1,2,... (unbounded) or a consecutive run ending with the newest event, at most `capacity` in total (bounded); non-trivial = sequence with an overflowing/overwriting write or a write ignored while closed (model), sink connection that carried >= 2 events (order), flood case")
 PLAN["C17"] = {"quick": [job("native", "model", 16, 600), job("native", "order", 16, 600), job("native", "flood", 16, 600)],
